@@ -2,7 +2,136 @@ import Mp4ff.Model.Tree
 import Mp4ff.Lemmas.LayoutThms
 /-!
 Nested round trip (Model/Tree.lean): proofs.  Statements are fixed in Props/C01b.lean.
+First the length part of `Layout.encode_decode` without `IsBytes` (needed for `container_length`, which has no such
+hypothesis), then the tree lemmas.
 -/
+namespace Mp4ff.Layout
+
+theorem decFld_len (fl : Fld) (acc : Trace) (bs : Bytes) (v : Val) (bs' : Bytes)
+    (hd : decFld fl acc bs = some (v, bs')) :
+    ∃ b, encFld fl acc v = some b ∧ b.length + bs'.length = bs.length := by
+  cases fl with
+  | u w =>
+    simp only [decFld] at hd
+    split at hd
+    · simp at hd
+    · simp at hd; obtain ⟨rfl, rfl⟩ := hd
+      exact ⟨_, rfl, by simp [beBytes_length]; omega⟩
+  | udyn w =>
+    simp only [decFld] at hd
+    split at hd
+    · simp at hd
+    · simp at hd; obtain ⟨rfl, rfl⟩ := hd
+      exact ⟨_, rfl, by simp [beBytes_length]; omega⟩
+  | raw n =>
+    simp only [decFld] at hd
+    split at hd
+    · simp at hd
+    · simp at hd; obtain ⟨rfl, rfl⟩ := hd
+      exact ⟨bs.take n, by simp [encFld]; omega, by simp; omega⟩
+  | rawdyn n =>
+    simp only [decFld] at hd
+    split at hd
+    · simp at hd
+    · simp at hd; obtain ⟨rfl, rfl⟩ := hd
+      exact ⟨bs.take (n acc), by simp [encFld]; omega, by simp; omega⟩
+  | rsv fill =>
+    simp only [decFld] at hd
+    split at hd
+    · simp at hd
+    · simp at hd; obtain ⟨rfl, rfl⟩ := hd
+      exact ⟨fill, by simp [encFld], by simp; omega⟩
+  | cstr =>
+    simp only [decFld, Option.map_eq_some_iff] at hd
+    obtain ⟨⟨a, r⟩, h1, h2⟩ := hd
+    simp at h2; obtain ⟨rfl, rfl⟩ := h2
+    obtain ⟨e, _⟩ := splitZero_some _ _ _ h1
+    exact ⟨a ++ [0], by simp [encFld], by rw [e]; simp; omega⟩
+  | rest =>
+    simp only [decFld] at hd
+    simp at hd; obtain ⟨rfl, rfl⟩ := hd
+    exact ⟨bs, by simp [encFld], by simp⟩
+
+/-- the length part of `encode_decode`, for arbitrary lists of naturals (no `IsBytes`): what the decoder consumed is
+    re-encoded (always successfully) to as many bytes -/
+theorem decode_encode_len (f : Nat) : ∀ (L : List Syn) (acc : Trace) (bs : Bytes) (a : Trace) (rest : Bytes),
+    decode f L acc bs = some (a, rest) →
+    ∃ (ext : Trace) (out : Bytes), a = acc ++ ext ∧
+      (∀ more, encode f L acc (ext ++ more) = some (out, a, more)) ∧
+      out.length + rest.length = bs.length := by
+  induction f with
+  | zero => intro L acc bs a rest h; simp [decode] at h
+  | succ f ih =>
+    intro L acc bs a rst hd
+    match L with
+    | [] =>
+      simp only [decode, Option.some.injEq, Prod.mk.injEq] at hd
+      obtain ⟨rfl, rfl⟩ := hd
+      exact ⟨[], [], by simp, by simp [encode], by simp⟩
+    | .fld nm fl :: rest =>
+      simp only [decode] at hd
+      split at hd
+      · rename_i v bs' hv
+        obtain ⟨b, hb, hlen⟩ := decFld_len fl acc bs v bs' hv
+        obtain ⟨ext2, o2, ha, henc, hlen2⟩ := ih rest _ bs' a rst hd
+        refine ⟨(nm, v) :: ext2, b ++ o2, ?_, ?_, ?_⟩
+        · rw [ha]; simp
+        · intro more
+          simp only [encode, List.cons_append, if_true, hb, henc more]
+        · simp only [List.length_append]; omega
+      · simp at hd
+    | .cond p body :: rest =>
+      simp only [decode] at hd
+      by_cases hp : p acc
+      · simp only [hp, if_true] at hd
+        split at hd
+        · rename_i a1 bs1 h1
+          obtain ⟨ext1, o1, ha1, henc1, hlen1⟩ := ih body acc bs a1 bs1 h1
+          obtain ⟨ext2, o2, ha, henc, hlen2⟩ := ih rest a1 bs1 a rst hd
+          refine ⟨ext1 ++ ext2, o1 ++ o2, ?_, ?_, ?_⟩
+          · rw [ha, ha1]; simp
+          · intro more
+            simp only [encode, hp, if_true, List.append_assoc, henc1 (ext2 ++ more), henc more]
+          · simp only [List.length_append]; omega
+        · simp at hd
+      · simp only [hp] at hd
+        obtain ⟨ext2, o2, ha, henc, hlen2⟩ := ih rest acc bs a rst hd
+        refine ⟨ext2, o2, ha, ?_, hlen2⟩
+        intro more; simp only [encode, hp]; exact henc more
+    | .rep cnt body :: rest =>
+      simp only [decode] at hd
+      cases hc : cnt acc with
+      | zero =>
+        simp only [hc] at hd
+        obtain ⟨ext2, o2, ha, henc, hlen2⟩ := ih rest acc bs a rst hd
+        refine ⟨ext2, o2, ha, ?_, hlen2⟩
+        intro more; simp only [encode, hc]; exact henc more
+      | succ n =>
+        simp only [hc] at hd
+        split at hd
+        · rename_i a1 bs1 h1
+          obtain ⟨ext1, o1, ha1, henc1, hlen1⟩ := ih body acc bs a1 bs1 h1
+          obtain ⟨ext2, o2, ha, henc, hlen2⟩ := ih _ a1 bs1 a rst hd
+          refine ⟨ext1 ++ ext2, o1 ++ o2, ?_, ?_, ?_⟩
+          · rw [ha, ha1]; simp
+          · intro more
+            simp only [encode, hc, List.append_assoc, henc1 (ext2 ++ more), henc more]
+          · simp only [List.length_append]; omega
+        · simp at hd
+
+/-- at the top level (`acc = []`): the re-encoding that `rtBox` computes has the length the decoder consumed -/
+theorem decode_encode_len0 (f : Nat) (L : List Syn) (bs : Bytes) (tr : Trace) (rest : Bytes)
+    (hd : decode f L [] bs = some (tr, rest)) :
+    ∃ out, encode f L [] tr = some (out, tr, []) ∧ out.length + rest.length = bs.length := by
+  obtain ⟨ext, out, ha, henc, hlen⟩ := decode_encode_len f L [] bs tr rest hd
+  simp only [List.nil_append] at ha
+  subst ha
+  have := henc []
+  rw [List.append_nil] at this
+  exact ⟨out, this, hlen⟩
+
+end Mp4ff.Layout
+
 namespace Mp4ff.TreeRT
 open Mp4ff Mp4ff.Boxes
 
@@ -15,7 +144,12 @@ def moovFree : Nat → Bytes → Bool
     | none => true
     | some (ty, _, _) =>
       if ty = "moov" then false
-      else if containers.contains ty then moovFreeKids f (bs.drop 8) else true
+      else match pspecOf ty with
+        | some ps =>
+          match Layout.decode (Layout.fuelFor ps.pre (bs.drop 8).length) ps.pre [] (bs.drop 8) with
+          | some (_, rest) => moovFreeKids f rest
+          | none => true
+        | none => true
 def moovFreeKids : Nat → Bytes → Bool
   | 0, _ => true
   | f + 1, bs =>
@@ -51,18 +185,38 @@ theorem rtKids_succ (f : Nat) (bs : Bytes) :
   unfold combineKid
   rfl
 
-/-- the container branch of `rtBox` once the children are known -/
-def finishBox (ty : String) (bs : Bytes) : KidsRes → Res
+/-- the child-count check of stsd / dref -/
+def countBad (ps : PSpec) (tr : Layout.Trace) (n : Nat) : Bool :=
+  match ps.count with
+  | some c => decide (tr.nat c ≠ n)
+  | none => false
+
+/-- the container branch of `rtBox` once the prefix is decoded and the children are known -/
+def finishBox (ty : String) (bs : Bytes) (ps : PSpec) (fuelP : Nat) (tr : Layout.Trace) (payload : Bytes) :
+    KidsRes → Res
   | .unmodelled => .unmodelled
   | .rejected => .rejected
   | .ok kids =>
     if ¬ accepts ty kids then .rejected
+    else if countBad ps tr kids.length then .rejected
     else
       let ks := arrange ty kids
       if ks.all (·.encOK) then
-        let body := encKids ks
-        .ok (beBytes 4 (8 + body.length) ++ (bs.drop 4).take 4 ++ body) (dcKids ks 8)
+        match Layout.encode fuelP ps.pre [] tr, Layout.dontCare fuelP ps.pre [] payload 0 with
+        | some (pb, _, _), some (pdc, _, _, _) =>
+          let body := encKids ks
+          .ok (beBytes 4 (8 + pb.length + body.length) ++ (bs.drop 4).take 4 ++ pb ++ body)
+              (pdc.map (· + 8) ++ dcKids ks (8 + pb.length))
+        | _, _ => .encFails
       else .encFails
+
+/-- the container branch of `rtBox`: prefix, then children -/
+def prefixBox (f : Nat) (ty : String) (bs : Bytes) (ps : PSpec) : Res :=
+  match Layout.decode (Layout.fuelFor ps.pre (bs.drop 8).length) ps.pre [] (bs.drop 8) with
+  | none => .rejected
+  | some (tr, rest) =>
+    if ¬ ps.valid tr then .rejected
+    else finishBox ty bs ps (Layout.fuelFor ps.pre (bs.drop 8).length) tr (bs.drop 8) (rtKids f rest)
 
 def leafRes : RT → Res
   | .unmodelled => .unmodelled
@@ -76,11 +230,11 @@ theorem rtBox_succ (f : Nat) (bs : Bytes) :
       | none => .rejected
       | some (ty, hl, size) =>
         if size ≠ bs.length then .rejected
-        else if containers.contains ty then
-          if hl ≠ 8 then .rejected else finishBox ty bs (rtKids f (bs.drop 8))
-        else leafRes (roundTrip bs) := by
+        else match pspecOf ty with
+          | some ps => if hl ≠ 8 then .rejected else prefixBox f ty bs ps
+          | none => leafRes (roundTrip bs) := by
   rw [rtBox]
-  unfold finishBox leafRes
+  unfold prefixBox finishBox leafRes countBad
   rfl
 
 /-! ### fuel monotonicity -/
@@ -91,10 +245,27 @@ theorem combineKid_mono (ty : String) (size : Nat) (child : Bytes) (r r' : Res) 
     combineKid ty size child r' k' = combineKid ty size child r k := by
   cases r <;> cases k <;> simp [combineKid] at h hr hk ⊢ <;> simp_all
 
-theorem finishBox_mono (ty : String) (bs : Bytes) (k k' : KidsRes)
-    (hk : k ≠ .rejected → k' = k) (h : finishBox ty bs k ≠ .rejected) :
-    finishBox ty bs k' = finishBox ty bs k := by
-  cases k <;> simp [finishBox] at h hk ⊢ <;> simp_all
+theorem finishBox_mono (ty : String) (bs : Bytes) (ps : PSpec) (fuelP : Nat) (tr : Layout.Trace) (payload : Bytes)
+    (k k' : KidsRes) (hk : k ≠ .rejected → k' = k) (h : finishBox ty bs ps fuelP tr payload k ≠ .rejected) :
+    finishBox ty bs ps fuelP tr payload k' = finishBox ty bs ps fuelP tr payload k := by
+  cases k with
+  | unmodelled => rw [hk (by simp)]
+  | rejected => simp [finishBox] at h
+  | ok kids => rw [hk (by simp)]
+
+theorem prefixBox_mono (f g : Nat) (ty : String) (bs : Bytes) (ps : PSpec)
+    (hk : ∀ rest, rtKids f rest ≠ .rejected → rtKids g rest = rtKids f rest)
+    (h : prefixBox f ty bs ps ≠ .rejected) : prefixBox g ty bs ps = prefixBox f ty bs ps := by
+  unfold prefixBox at h ⊢
+  cases hd : Layout.decode (Layout.fuelFor ps.pre (bs.drop 8).length) ps.pre [] (bs.drop 8) with
+  | none => rfl
+  | some p =>
+    obtain ⟨tr, rest⟩ := p
+    simp only [hd] at h ⊢
+    by_cases c : ¬ ps.valid tr = true
+    · simp [c] at h
+    simp only [if_neg c] at h ⊢
+    exact finishBox_mono ty bs ps _ tr _ _ _ (hk rest) h
 
 theorem fuel_mono_gen : ∀ f : Nat,
     (∀ g bs, f ≤ g → rtBox f bs ≠ .rejected → rtBox g bs = rtBox f bs) ∧
@@ -121,13 +292,14 @@ theorem fuel_mono_gen : ∀ f : Nat,
         by_cases c1 : size ≠ bs.length
         · simp [c1] at h
         simp only [if_neg c1] at h ⊢
-        by_cases c2 : containers.contains ty = true
-        · simp only [if_pos c2] at h ⊢
+        cases hps : pspecOf ty with
+        | none => rfl
+        | some ps =>
+          simp only [hps] at h ⊢
           by_cases c3 : hl ≠ 8
           · simp [c3] at h
           simp only [if_neg c3] at h ⊢
-          exact finishBox_mono ty bs _ _ (ihK g _ hfg') h
-        · simp only [if_neg c2]
+          exact prefixBox_mono f g ty bs ps (fun rest => ihK g rest hfg') h
     · intro g bs hfg h
       obtain ⟨g, rfl⟩ : ∃ g', g = g' + 1 := ⟨g - 1, by omega⟩
       have hfg' : f ≤ g := by omega
@@ -275,11 +447,38 @@ theorem rtKids_length : ∀ (f : Nat) (bs : Bytes) (ks : List Kid), rtKids f bs 
 
 /-! ### one box -/
 
-theorem finishBox_ok (ty : String) (bs : Bytes) (k : KidsRes) (enc : Bytes) (dc : List Nat)
-    (h : finishBox ty bs k = .ok enc dc) :
-    ∃ kids, k = .ok kids ∧ accepts ty kids = true ∧ (arrange ty kids).all (·.encOK) = true ∧
-      enc = beBytes 4 (8 + (encKids (arrange ty kids)).length) ++ (bs.drop 4).take 4 ++ encKids (arrange ty kids) ∧
-      dc = dcKids (arrange ty kids) 8 := by
+theorem find_of_mem (l : List (String × PSpec)) (ty : String) (h : ty ∈ l.map (·.1)) :
+    ∃ ps, (l.find? (·.1 == ty)).map (·.2) = some ps := by
+  obtain ⟨p, hp, e⟩ := List.mem_map.1 h
+  cases hf : l.find? (·.1 == ty) with
+  | some q => exact ⟨q.2, rfl⟩
+  | none =>
+    have := List.find?_eq_none.1 hf p hp
+    simp [e] at this
+
+/-- the containers of the model are the types with a prefix specification -/
+theorem pspecOf_of_container (ty : String) (hc : containers.contains ty = true) : ∃ ps, pspecOf ty = some ps := by
+  unfold pspecOf
+  by_cases c : plain.contains ty = true
+  · exact ⟨_, if_pos c⟩
+  · rw [if_neg c]
+    apply find_of_mem
+    have hm : ty ∈ containers := List.contains_iff_mem.1 hc
+    have hp : ty ∉ plain := fun x => c (List.contains_iff_mem.2 x)
+    unfold containers at hm
+    rcases List.mem_append.1 hm with x | x
+    · exact absurd x hp
+    · exact x
+
+theorem finishBox_ok (ty : String) (bs : Bytes) (ps : PSpec) (fuelP : Nat) (tr : Layout.Trace) (payload : Bytes)
+    (k : KidsRes) (enc : Bytes) (dc : List Nat) (h : finishBox ty bs ps fuelP tr payload k = .ok enc dc) :
+    ∃ kids pb pdc a1 a2 b1 b2 b3, k = .ok kids ∧ accepts ty kids = true ∧
+      (arrange ty kids).all (·.encOK) = true ∧
+      Layout.encode fuelP ps.pre [] tr = some (pb, a1, a2) ∧
+      Layout.dontCare fuelP ps.pre [] payload 0 = some (pdc, b1, b2, b3) ∧
+      enc = beBytes 4 (8 + pb.length + (encKids (arrange ty kids)).length) ++ (bs.drop 4).take 4 ++ pb ++
+        encKids (arrange ty kids) ∧
+      dc = pdc.map (· + 8) ++ dcKids (arrange ty kids) (8 + pb.length) := by
   cases k with
   | unmodelled => simp [finishBox] at h
   | rejected => simp [finishBox] at h
@@ -289,10 +488,59 @@ theorem finishBox_ok (ty : String) (bs : Bytes) (k : KidsRes) (enc : Bytes) (dc 
     · cases h
     · rename_i c1
       split at h
-      · rename_i c2
-        simp only [Res.ok.injEq] at h
-        exact ⟨kids, rfl, Decidable.not_not.mp c1, c2, h.1.symm, h.2.symm⟩
       · cases h
+      · split at h
+        · rename_i c2
+          split at h
+          · rename_i pb a1 a2 pdc b1 b2 b3 he hd
+            simp only [Res.ok.injEq] at h
+            exact ⟨kids, pb, pdc, a1, a2, b1, b2, b3, rfl, Decidable.not_not.mp c1, c2, he, hd, h.1.symm, h.2.symm⟩
+          · cases h
+        · cases h
+
+/-- what an accepted container looks like: prefix `pb` (as long as what the prefix decoder consumed), then the
+    re-encoded children of the remaining bytes; on bytes, the prefix agrees with the input outside `pdc` -/
+theorem prefixBox_ok (f : Nat) (ty : String) (bs : Bytes) (ps : PSpec) (enc : Bytes) (dc : List Nat)
+    (h : prefixBox f ty bs ps = .ok enc dc) :
+    ∃ (tr : Layout.Trace) (rest : Bytes) (kids : List Kid) (pb : Bytes) (pdc : List Nat),
+      Layout.decode (Layout.fuelFor ps.pre (bs.drop 8).length) ps.pre [] (bs.drop 8) = some (tr, rest) ∧
+      rtKids f rest = .ok kids ∧
+      enc = beBytes 4 (8 + (pb ++ encKids (arrange ty kids)).length) ++ (bs.drop 4).take 4 ++
+        (pb ++ encKids (arrange ty kids)) ∧
+      dc = pdc.map (· + 8) ++ dcKids (arrange ty kids) (8 + pb.length) ∧
+      pb.length + rest.length = (bs.drop 8).length ∧
+      (IsBytes bs → rest = (bs.drop 8).drop pb.length ∧
+        ∀ i, i < pb.length → i ∉ pdc → pb[i]? = (bs.drop 8)[i]?) := by
+  unfold prefixBox at h
+  cases hd : Layout.decode (Layout.fuelFor ps.pre (bs.drop 8).length) ps.pre [] (bs.drop 8) with
+  | none => rw [hd] at h; cases h
+  | some p =>
+    obtain ⟨tr, rest⟩ := p
+    simp only [hd] at h
+    by_cases c : ¬ ps.valid tr = true
+    · rw [if_pos c] at h; cases h
+    simp only [if_neg c] at h
+    obtain ⟨kids, pb, pdc, a1, a2, b1, b2, b3, hk, _, _, he, hdc, henc, hdcs⟩ := finishBox_ok _ _ _ _ _ _ _ _ _ h
+    obtain ⟨out, he', hlen⟩ := Layout.decode_encode_len0 _ _ _ _ _ hd
+    rw [he] at he'
+    simp only [Option.some.injEq, Prod.mk.injEq] at he'
+    obtain ⟨rfl, _, _⟩ := he'
+    refine ⟨tr, rest, kids, pb, pdc, rfl, hk, ?_, hdcs, hlen, ?_⟩
+    · rw [henc, List.length_append, ← Nat.add_assoc, List.append_assoc _ pb]
+    · intro hb
+      obtain ⟨ext, out, dc0, ha, henc0, hdc0, _, hdrop, hag, _⟩ :=
+        Layout.encode_decode_gen _ _ _ _ _ _ (hb.drop 8) hd
+      simp only [List.nil_append] at ha
+      subst ha
+      have e1 := henc0 []
+      rw [List.append_nil, he] at e1
+      simp only [Option.some.injEq, Prod.mk.injEq] at e1
+      obtain ⟨rfl, _, _⟩ := e1
+      have e2 := hdc0 0
+      rw [hdc] at e2
+      simp only [Option.some.injEq, Prod.mk.injEq, Nat.add_zero, List.map_id'] at e2
+      obtain ⟨rfl, _⟩ := e2
+      exact ⟨hdrop, hag⟩
 
 theorem leafRes_ok (r : RT) (enc : Bytes) (dc : List Nat) (h : leafRes r = .ok enc dc) :
     ∃ sz, r = .ok sz enc dc := by
@@ -303,12 +551,8 @@ theorem leafRes_ok (r : RT) (enc : Bytes) (dc : List Nat) (h : leafRes r = .ok e
 /-- the cases of a successful `rtBox` -/
 theorem rtBox_ok_cases (f : Nat) (bs : Bytes) (enc : Bytes) (dc : List Nat) (h : rtBox f bs = .ok enc dc) :
     ∃ f' ty hl, f = f' + 1 ∧ parseHeader bs = some (ty, hl, bs.length) ∧
-      ((containers.contains ty = true ∧ hl = 8 ∧ ∃ kids, rtKids f' (bs.drop 8) = .ok kids ∧
-          accepts ty kids = true ∧ (arrange ty kids).all (·.encOK) = true ∧
-          enc = beBytes 4 (8 + (encKids (arrange ty kids)).length) ++ (bs.drop 4).take 4 ++
-            encKids (arrange ty kids) ∧
-          dc = dcKids (arrange ty kids) 8) ∨
-       (containers.contains ty = false ∧ ∃ sz, roundTrip bs = .ok sz enc dc)) := by
+      ((∃ ps, pspecOf ty = some ps ∧ hl = 8 ∧ prefixBox f' ty bs ps = .ok enc dc) ∨
+       (pspecOf ty = none ∧ ∃ sz, roundTrip bs = .ok sz enc dc)) := by
   cases f with
   | zero => simp [rtBox] at h
   | succ f =>
@@ -324,15 +568,16 @@ theorem rtBox_ok_cases (f : Nat) (bs : Bytes) (enc : Bytes) (dc : List Nat) (h :
       have hs : size = bs.length := Decidable.not_not.mp c1
       subst hs
       refine ⟨f, ty, hl, rfl, rfl, ?_⟩
-      by_cases c2 : containers.contains ty = true
-      · simp only [if_pos c2] at h
+      cases hps : pspecOf ty with
+      | some ps =>
+        simp only [hps] at h
         by_cases c3 : hl ≠ 8
         · simp [c3] at h
         simp only [if_neg c3] at h
-        obtain ⟨kids, hk, ha, he, henc, hdc⟩ := finishBox_ok _ _ _ _ _ h
-        exact Or.inl ⟨c2, Decidable.not_not.mp c3, kids, hk, ha, he, henc, hdc⟩
-      · simp only [if_neg c2] at h
-        exact Or.inr ⟨by simpa using c2, leafRes_ok _ _ _ h⟩
+        exact Or.inl ⟨ps, rfl, Decidable.not_not.mp c3, h⟩
+      | none =>
+        simp only [hps] at h
+        exact Or.inr ⟨rfl, leafRes_ok _ _ _ h⟩
 
 theorem parseHeader_cases (bs : Bytes) (ty : String) (hl sz : Nat) (h : parseHeader bs = some (ty, hl, sz)) :
     (hl = 8 ∧ beVal (bs.take 4) ≠ 1 ∧ 8 ≤ bs.length ∧ sz = beVal (bs.take 4)) ∨
@@ -354,6 +599,17 @@ theorem parseHeader_cases (bs : Bytes) (ty : String) (hl sz : Nat) (h : parseHea
     obtain ⟨a, b, c, _, _⟩ := parseHeader_8 bs h8 ty hl sz h
     exact ⟨b, h8, a, c⟩
 
+/-- an accepted container: header, prefix and children are as long as the input -/
+theorem prefixBox_length (f : Nat) (ty : String) (bs : Bytes) (ps : PSpec) (enc : Bytes) (dc : List Nat)
+    (h8 : 8 ≤ bs.length) (h : prefixBox f ty bs ps = .ok enc dc) :
+    ∃ body, enc = beBytes 4 (8 + body.length) ++ (bs.drop 4).take 4 ++ body ∧ body.length + 8 = bs.length := by
+  obtain ⟨tr, rest, kids, pb, pdc, _, hk, henc, _, hlen, _⟩ := prefixBox_ok f ty bs ps enc dc h
+  refine ⟨_, henc, ?_⟩
+  have hkl := rtKids_length _ _ _ hk
+  rw [List.length_append, arrange_length, hkl]
+  rw [List.length_drop] at hlen
+  omega
+
 theorem container_length (f : Nat) (bs : Bytes) (enc : Bytes) (dc : List Nat) (ty : String) (hl size : Nat)
     (hh : parseHeader bs = some (ty, hl, size)) (hc : containers.contains ty = true)
     (h : rtBox f bs = .ok enc dc) : enc.length = bs.length := by
@@ -361,16 +617,16 @@ theorem container_length (f : Nat) (bs : Bytes) (enc : Bytes) (dc : List Nat) (t
   rw [hh] at hph
   simp only [Option.some.injEq, Prod.mk.injEq] at hph
   obtain ⟨rfl, rfl, rfl⟩ := hph
-  rcases hcase with ⟨_, rfl, kids, hk, _, _, henc, _⟩ | ⟨hn, _⟩
-  · have hlen := rtKids_length _ _ _ hk
-    have h8 : 8 ≤ bs.length := by
-      rcases parseHeader_cases _ _ _ _ hh with ⟨_, _, h, _⟩ | ⟨h, _⟩ <;> omega
+  rcases hcase with ⟨ps, _, _, hp⟩ | ⟨hn, _⟩
+  · have h8 : 8 ≤ bs.length := by
+      rcases parseHeader_cases _ _ _ _ hh with ⟨_, _, h, _⟩ | ⟨_, _, h⟩ <;> omega
+    obtain ⟨body, henc, hlen⟩ := prefixBox_length f' ty bs ps enc dc h8 hp
     have ht4 : ((bs.drop 4).take 4).length = 4 := by simp; omega
-    obtain ⟨e1, _⟩ := hdr_facts (8 + (encKids (arrange ty kids)).length) ((bs.drop 4).take 4)
-      (encKids (arrange ty kids)) ht4
-    rw [henc, e1, arrange_length, hlen, List.length_drop]
+    obtain ⟨e1, _⟩ := hdr_facts (8 + body.length) ((bs.drop 4).take 4) body ht4
+    rw [henc, e1]
     omega
-  · rw [hc] at hn; cases hn
+  · obtain ⟨ps, hps⟩ := pspecOf_of_container ty hc
+    rw [hps] at hn; cases hn
 
 /-- the shape of an accepted leaf, whatever its header length -/
 theorem roundTrip_shape (bs : Bytes) (hb : IsBytes bs) (size : Nat) (enc : Bytes) (dc : List Nat)
@@ -410,12 +666,11 @@ theorem rtBox_shape (f : Nat) (bs : Bytes) (hb : IsBytes bs) (enc : Bytes) (dc :
     ∃ ty hl body, parseHeader bs = some (ty, hl, bs.length) ∧
       enc = beBytes 4 (8 + body.length) ++ (bs.drop 4).take 4 ++ body ∧ body.length + hl ≤ bs.length := by
   obtain ⟨f', ty, hl, rfl, hph, hcase⟩ := rtBox_ok_cases f bs enc dc h
-  rcases hcase with ⟨hc, rfl, kids, hk, _, _, henc, _⟩ | ⟨_, sz, hrt⟩
-  · refine ⟨ty, 8, _, hph, henc, ?_⟩
-    have hlen := rtKids_length _ _ _ hk
-    have h8 : 8 ≤ bs.length := by
-      rcases parseHeader_cases _ _ _ _ hph with ⟨_, _, h, _⟩ | ⟨h, _⟩ <;> omega
-    rw [arrange_length, hlen, List.length_drop]; omega
+  rcases hcase with ⟨ps, _, rfl, hp⟩ | ⟨_, sz, hrt⟩
+  · have h8 : 8 ≤ bs.length := by
+      rcases parseHeader_cases _ _ _ _ hph with ⟨_, _, h, _⟩ | ⟨_, _, h⟩ <;> omega
+    obtain ⟨body, henc, hlen⟩ := prefixBox_length f' ty bs ps enc dc h8 hp
+    exact ⟨ty, 8, body, hph, henc, by omega⟩
   · obtain ⟨out, he, hl'⟩ := roundTrip_shape bs hb sz enc dc ty hl _ hph hrt
     exact ⟨ty, hl, out, hph, he, hl'⟩
 
@@ -471,13 +726,15 @@ theorem dcKids_cons0 (k : Kid) (ks : List Kid) :
 
 theorem moovFree_succ (f : Nat) (bs : Bytes) (ty : String) (hl size : Nat)
     (hph : parseHeader bs = some (ty, hl, size)) (h : moovFree (f + 1) bs = true) :
-    ty ≠ "moov" ∧ (containers.contains ty = true → moovFreeKids f (bs.drop 8) = true) := by
+    ty ≠ "moov" ∧ (∀ ps tr rest, pspecOf ty = some ps →
+      Layout.decode (Layout.fuelFor ps.pre (bs.drop 8).length) ps.pre [] (bs.drop 8) = some (tr, rest) →
+      moovFreeKids f rest = true) := by
   simp only [moovFree, hph] at h
   by_cases c : ty = "moov"
   · simp [c] at h
   · simp only [if_neg c] at h
-    refine ⟨c, fun hc => ?_⟩
-    rw [if_pos hc] at h; exact h
+    refine ⟨c, fun ps tr rest hps hd => ?_⟩
+    simp only [hps, hd] at h; exact h
 
 theorem moovFreeKids_succ (f : Nat) (bs : Bytes) (ty : String) (hl size : Nat) (hne : bs ≠ [])
     (hph : parseHeader bs = some (ty, hl, size)) (hle : size ≤ bs.length)
@@ -531,20 +788,29 @@ theorem lossless_gen : ∀ f : Nat,
       · have ht : (bs.take 8).length = 8 := by simp; omega
         rw [hbody, List.getElem?_append_left (by omega), List.getElem?_take, if_pos hi8]
       · obtain ⟨hty, hmk⟩ := moovFree_succ f bs ty hl _ hph hm
-        rcases hcase with ⟨hc, _, kids, hk, _, _, henc, hdc⟩ | ⟨_, sz, hrt⟩
-        · rw [arrange_of_ne ty kids hty] at henc hdc
+        rcases hcase with ⟨ps, hps, _, hp⟩ | ⟨_, sz, hrt⟩
+        · obtain ⟨tr, rest, kids, pb, pdc, hd, hk, henc, hdc, hplen, hbytes⟩ := prefixBox_ok f ty bs ps enc dc hp
+          obtain ⟨hdrop, hag⟩ := hbytes hb
+          rw [arrange_of_ne ty kids hty] at henc hdc
           have ht4 : ((bs.drop 4).take 4).length = 4 := by simp; omega
-          have hhl : (beBytes 4 (8 + (encKids kids).length) ++ (bs.drop 4).take 4).length = 8 := by
+          have hhl : (beBytes 4 (8 + (pb ++ encKids kids).length) ++ (bs.drop 4).take 4).length = 8 := by
             simp [beBytes_length, ht4]
-          have hlk : (encKids kids).length + 8 = enc.length := by
-            rw [henc, List.length_append, hhl]; omega
-          have hn' : i - 8 ∉ dcKids kids 0 := by
+          have hlk : (pb ++ encKids kids).length + 8 = enc.length := by
+            rw [henc]; simp only [List.length_append, beBytes_length, ht4]; omega
+          have hrl : rest.length < 2 ^ 32 := by
+            rw [List.length_drop] at hplen; omega
+          have hrb : IsBytes rest := by rw [hdrop]; exact (hb.drop 8).drop _
+          have hrest := ihK rest kids hrb hrl (hmk ps tr rest hps hd) hk
+          have hn' : i - 8 ∉ pdc ++ (dcKids kids 0).map (· + pb.length) := by
             intro hmem
             apply hn
-            rw [hdc, dcKids_shift kids 8]
-            exact List.mem_map.2 ⟨i - 8, hmem, by omega⟩
-          have := ihK (bs.drop 8) kids (hb.drop 8) (by rw [List.length_drop]; omega) (hmk hc) hk (i - 8)
-            (by omega) hn'
+            rw [hdc, dcKids_shift kids (8 + pb.length)]
+            rcases List.mem_append.1 hmem with hm1 | hm2
+            · exact List.mem_append.2 (Or.inl (List.mem_map.2 ⟨i - 8, hm1, by omega⟩))
+            · obtain ⟨j, hj, hje⟩ := List.mem_map.1 hm2
+              exact List.mem_append.2 (Or.inr (List.mem_map.2 ⟨j, hj, by omega⟩))
+          have := Layout.agree_seq pb (encKids kids) (bs.drop 8) rest pdc (dcKids kids 0) hdrop hag hrest
+            (i - 8) (by omega) hn'
           rw [henc, List.getElem?_append_right (by rw [hhl]; omega), hhl, this, List.getElem?_drop]
           congr 1; omega
         · obtain ⟨_, _, _, _, hag, _⟩ := roundTrip_spec bs hb sz enc dc h1 hsz hrt
@@ -576,9 +842,15 @@ theorem lossless (f : Nat) (bs : Bytes) (hb : IsBytes bs) (enc : Bytes) (dc : Li
     ∀ i, 8 ≤ i → i < enc.length → i ∉ dc → enc[i]? = bs[i]? := by
   intro i h8i hi hn
   obtain ⟨f', ty, hl, hf, hph, hcase⟩ := rtBox_ok_cases _ bs enc dc h
-  rcases hcase with ⟨hc, _, _⟩ | ⟨_, sz, hrt⟩
-  · have hlen := container_length f bs enc dc ty hl _ hph hc h
-    exact (lossless_gen f).1 bs enc dc hb hsz hm h hlen i hi hn
+  rcases hcase with ⟨ps, _, _, hp⟩ | ⟨_, sz, hrt⟩
+  · have h8l : 8 ≤ bs.length := by
+      rcases parseHeader_cases _ _ _ _ hph with ⟨_, _, h, _⟩ | ⟨_, _, h⟩ <;> omega
+    subst hf
+    obtain ⟨body, henc, hbl⟩ := prefixBox_length f' ty bs ps enc dc h8l hp
+    have ht4 : ((bs.drop 4).take 4).length = 4 := by simp; omega
+    obtain ⟨e1, _⟩ := hdr_facts (8 + body.length) ((bs.drop 4).take 4) body ht4
+    have hlen : enc.length = bs.length := by rw [henc, e1]; omega
+    exact (lossless_gen (f' + 1)).1 bs enc dc hb hsz hm h hlen i hi hn
   · obtain ⟨_, _, _, _, hag, _⟩ := roundTrip_spec bs hb sz enc dc h8 hsz hrt
     exact hag i h8i hi hn
 
